@@ -321,6 +321,13 @@ class Interp:
             if not c:
                 raise PathEnd('infeasible')
             return
+        if isinstance(c, SV):
+            c = c.t
+        c = z3.simplify(c)
+        if z3.is_true(c):
+            return
+        if z3.is_false(c):
+            raise PathEnd('infeasible')
         self.path.pc.append(c)
 
     def decide(self, n_options, feasible_fn):
@@ -833,7 +840,7 @@ class Interp:
         # exit handlers of modelled context managers are effect-free in the subset
 
     def exec_While(self, node, env):
-        label = self.next_loop_label()
+        label = self.next_loop_label(node)
         spec = self.find_loop_spec(label)
         if spec is None or getattr(spec, 'unroll', None):
             # concrete unrolling (bounded by spec.unroll or 64)
@@ -864,14 +871,26 @@ class Interp:
                 return v
         return None
 
-    def next_loop_label(self):
-        q = self.frames[-1].qualname if self.frames else '<top>'
+    def next_loop_label(self, node=None):
+        """label of a loop = <function qualname>#L<ordinal of the loop in source order within that function>"""
+        fn = self.frames[-1] if self.frames else None
+        q = fn.qualname if fn else '<top>'
+        if fn is not None and node is not None:
+            table = getattr(fn, '_loop_ordinals', None)
+            if table is None:
+                body = fn.node.body if not isinstance(fn.node, ast.Lambda) else []
+                loops = [n for n in _walk_no_nested(body) if isinstance(n, (ast.For, ast.While))]
+                loops.sort(key=lambda n: (n.lineno, n.col_offset))
+                table = {id(n): i for i, n in enumerate(loops)}
+                fn._loop_ordinals = table
+            if id(node) in table:
+                return '%s#L%d' % (q, table[id(node)])
         n = self.loop_counter.get(q, 0)
         self.loop_counter[q] = n + 1
-        return '%s#L%d' % (q, n)
+        return '%s#X%d' % (q, n)
 
     def exec_For(self, node, env):
-        label = self.next_loop_label()
+        label = self.next_loop_label(node)
         it = self.eval(node.iter, env)
         kind, payload = self.lib.iterate(self, it)
         if kind == 'concrete':
@@ -905,6 +924,8 @@ class Interp:
         if names - {node.target.id} or len(mutated) != 1:
             return False
         tname = next(iter(mutated))
+        if '.' in tname:
+            return False
         e = env.find(tname)
         if e is None or not isinstance(e.vars[tname], Row):
             return False
@@ -970,18 +991,25 @@ class Interp:
             elif isinstance(n, ast.AugAssign) and isinstance(n.target, ast.Name):
                 names.add(n.target.id)
             elif isinstance(n, (ast.Subscript, ast.Attribute)) and isinstance(n.ctx, (ast.Store, ast.Del)):
-                b = n.value
-                while isinstance(b, (ast.Subscript, ast.Attribute)):
-                    b = b.value
-                if isinstance(b, ast.Name):
-                    mutated.add(b.id)
+                mutated.add(self._access_path(n.value))
             elif isinstance(n, ast.Call) and isinstance(n.func, ast.Attribute) and n.func.attr in MUTATORS:
-                b = n.func.value
-                while isinstance(b, (ast.Subscript, ast.Attribute)):
-                    b = b.value
-                if isinstance(b, ast.Name):
-                    mutated.add(b.id)
+                mutated.add(self._access_path(n.func.value))
+        mutated.discard(None)
         return names, mutated
+
+    @staticmethod
+    def _access_path(b):
+        """'name' or 'name.attr.attr' for Name / Attribute chains on a Name (subscripts end the path)"""
+        attrs = []
+        while isinstance(b, (ast.Subscript, ast.Attribute)):
+            if isinstance(b, ast.Attribute):
+                attrs.append(b.attr)
+            else:
+                attrs = []
+            b = b.value
+        if isinstance(b, ast.Name):
+            return '.'.join([b.id] + list(reversed(attrs)))
+        return None
 
     def havoc_value(self, name, v):
         """fresh value of the same shape"""
@@ -1010,6 +1038,10 @@ class Interp:
                 v.arr = self.fresh('hv_%s.set' % name, v.arr.sort())
         elif isinstance(v, (PyList, SymList)):
             raise Unsupported('havoc of list %s (use accumulator form)' % name)
+        elif isinstance(v, PyDict):
+            # dict accumulator filled inside the loop: contents become opaque
+            v.d.clear()
+            v.havocked = self.fresh('hv_%s.dict' % name, IntS)
         elif isinstance(v, Opaque) or isinstance(v, Stream):
             pass
         else:
@@ -1035,25 +1067,38 @@ class Interp:
                 new = self.havoc_value(n, cur)
             e.vars[n] = new
             hv[n] = new
-        for n in sorted(mutated):
-            if n in keep or n in names:
+        for path in sorted(mutated):
+            parts = path.split('.')
+            n = parts[0]
+            if n in keep or n in names or path in keep:
                 continue
             e = env.find(n)
             if e is None:
                 continue
             cur = e.vars[n]
+            holder, attr = None, None
+            for a in parts[1:]:
+                if isinstance(cur, (Instance, Opaque)) and a in cur.attrs:
+                    holder, attr = cur, a
+                    cur = cur.attrs[a]
+                else:
+                    break
             if isinstance(cur, (PyList, SymList)):
                 # accumulator: becomes symbolic prefix ++ []
-                e.vars[n] = self.lib.havoc_list(self, n, cur)
+                new = self.lib.havoc_list(self, path, cur)
+                if holder is not None:
+                    holder.attrs[attr] = new
+                else:
+                    e.vars[n] = new
             elif isinstance(cur, Obj):
-                self.havoc_obj(n, cur)
+                self.havoc_obj(path, cur)
         return hv
 
     def cut_for(self, node, env, label, src):
         """src: lib.SymSource describing the opaque iterable"""
         spec = self.find_loop_spec(label) or LoopSpec()
-        modes = ['iter', 'exit']
-        if getattr(src, 'may_raise', False):
+        modes = [m for m in ('iter', 'exit') if m in spec.modes]
+        if getattr(src, 'may_raise', False) and ('raise' in spec.modes or spec.modes == ('iter', 'exit')):
             modes.append('raise')
         # invariant must hold on entry
         if spec.inv is not None:
